@@ -1,3 +1,73 @@
 import ViaProofs.Statements
+/-
+  C15 — Expect: 100-continue is answered before the server waits for the body.
+
+  Decision logic of `request_receiver::receive` after the head has been parsed (∀ configuration, state, buffer):
+  * `C15_body_expect`    Content-Length framing: when the head was completed by this call, the announced body has
+                         not fully arrived, the request is HTTP/1.1+ with a 100-continue expectation and no interim
+                         response has been sent yet, the result is EXPECT_CONTINUE with the proposed status 100
+                         (this is the repaired behaviour: before, only chunked requests were answered);
+  * `C15_chunk_expect`   chunked framing: the same, whatever has arrived;
+  * `C15_at_most_once`   once `continue_sent_` is set no further EXPECT_CONTINUE is reported for the request;
+  * `C15_not_for_http10` never for HTTP/1.0 or earlier;
+  * `C15_reset`          `clear()` resets the flag between requests.
+-/
 namespace Via
+
+theorem C15_body_expect (cfg : Cfg) (r : RR) (buf : Bytes)
+    (ht : r.request.isTrace = false)
+    (hcl0 : 0 < r.request.headers.contentLength) (hcl1 : r.request.headers.contentLength ≤ (cfg.maxContent : Int))
+    (hshort : (buf.length : Int) < r.request.headers.contentLength)
+    (hexp : r.request.expectContinue = true) (hcs : r.continueSent = false) :
+    RR.receiveBody cfg r true buf = ({ r with code := 100 }, buf, .expectContinue) := by
+  have h0 : ¬ r.request.headers.contentLength < 0 := by omega
+  have h2 : ¬ r.request.headers.contentLength > (cfg.maxContent : Int) := by omega
+  unfold RR.receiveBody
+  simp [ht, h0, hcl0, h2, hshort, hexp, hcs]
+
+theorem C15_chunk_expect (cfg : Cfg) (r : RR) (buf : Bytes)
+    (hexp : r.request.expectContinue = true) (hcs : r.continueSent = false) :
+    (RR.receiveChunk cfg r true buf).2.2 = .expectContinue ∧ (RR.receiveChunk cfg r true buf).2.1 = buf ∧
+    (RR.receiveChunk cfg r true buf).1.code = 100 := by
+  unfold RR.receiveChunk
+  by_cases hv : r.chunk.valid = true <;> simp [hv, hexp, hcs]
+
+theorem C15_at_most_once (cfg : Cfg) (r : RR) (p : Bool) (buf : Bytes) (hcs : r.continueSent = true) :
+    (RR.receiveBody cfg r p buf).2.2 ≠ .expectContinue ∧ (RR.receiveChunk cfg r p buf).2.2 ≠ .expectContinue := by
+  constructor
+  · unfold RR.receiveBody
+    by_cases ht : r.request.isTrace = true <;> by_cases h0 : (r.request.headers.contentLength == 0) = true <;>
+      simp only [ht, h0, hcs, Bool.not_true, Bool.and_false, Bool.false_eq_true, ↓reduceIte] <;>
+      (repeat' split) <;> simp
+  · unfold RR.receiveChunk
+    simp only [hcs, Bool.not_true, Bool.and_false, Bool.false_eq_true, ↓reduceIte]
+    repeat' split
+    all_goals simp_all
+
+theorem C15_not_for_http10 (cfg : Cfg) (r : RR) (p : Bool) (buf : Bytes)
+    (h10 : r.request.line.isHttp10OrEarlier = true) :
+    (RR.receiveBody cfg r p buf).2.2 ≠ .expectContinue ∧ (RR.receiveChunk cfg r p buf).2.2 ≠ .expectContinue := by
+  have he : r.request.expectContinue = false := by simp [RQ.expectContinue, h10]
+  constructor
+  · unfold RR.receiveBody
+    by_cases ht : r.request.isTrace = true <;> by_cases h0 : (r.request.headers.contentLength == 0) = true <;>
+      simp only [ht, h0, he, Bool.and_false, Bool.false_and, Bool.false_eq_true, ↓reduceIte] <;>
+      (repeat' split) <;> simp
+  · unfold RR.receiveChunk
+    have he' : (if r.chunk.valid = true then { r with chunk := {} } else r).request.expectContinue = false := by
+      split <;> simpa using he
+    simp only [he', Bool.false_and, Bool.false_eq_true, ↓reduceIte]
+    repeat' split
+    all_goals simp_all
+
+theorem C15_reset (r : RR) : r.clear.continueSent = false := rfl
+
+/-- non-vacuity: a parsed request head with the expectation satisfies the hypotheses of `C15_body_expect` -/
+example :
+    let r : RR := { request := { line := { method := (b!"POST"), major := 49, minor := 49 },
+                                 headers := { fields := [((b!"content-length"), (b!"3")), ((b!"expect"), (b!"100-continue"))] } } }
+    r.request.isTrace = false ∧ 0 < r.request.headers.contentLength ∧
+    r.request.headers.contentLength ≤ ((1048576 : Nat) : Int) ∧ r.request.expectContinue = true ∧
+    r.continueSent = false := by decide
+
 end Via
